@@ -30,6 +30,7 @@ fn main() {
         "sock" => drivers::sock::run(&args),
         "putq" => drivers::putq::run(&args),
         "query" => drivers::query::run(&args),
+        "auth" => drivers::auth::run(&args),
         "idmath-one" => drivers::idmath::run_one(&args),
         other => {
             eprintln!("unknown driver {other}");
